@@ -136,6 +136,13 @@ def site_text(model, fi, line):
     return unparse(best, 90)
 
 
+def _line_in_live_function(model, fi, line):
+    for f in model.functions(fi.mod.rel):
+        if f.parent is None and f.node.lineno <= line <= getattr(f.node, 'end_lineno', f.node.lineno):
+            return True
+    return False
+
+
 def report_sinks(ctx, rule_of, sc: Scan, fi=None, categories=None, why_of=None, pass_only=()):
     """Turn the sinks of a scan into obligations: one per (site, category); flagged sites are violations.
     `rule_of(category)` -> rule id or None (category not claimed by the calling property)."""
@@ -152,8 +159,9 @@ def report_sinks(ctx, rule_of, sc: Scan, fi=None, categories=None, why_of=None, 
         top = top.parent
     lo, hi = top.node.lineno, getattr(top.node, 'end_lineno', top.node.lineno)
     for (line, cat), count in sorted(sc.sinks.items()):
-        if not (lo <= line <= hi):
-            continue            # a sink inside an inlined callee: reported by the scan of that callee
+        if not (lo <= line <= hi) and _line_in_live_function(model, fi, line):
+            continue            # a sink inside an interpreted callee that is scanned on its own
+        # (a line outside the function that belongs to no live function is code of an expanded helper: it counts here)
         rule = rule_of(cat)
         if rule is None or (categories is not None and cat not in categories):
             continue
